@@ -238,8 +238,10 @@ where
             .unwrap();
         // NOTE: suspending/resuming a scheduler is part of CKB's implementation
         // details. It is not part of execution consensue. We should not charge
-        // cycles for them.
-        scheduler.iteration_cycles = 0;
+        // cycles for them. However, cycles that were already pending in
+        // +iteration_cycles+ when the scheduler was suspended(i.e., charged by
+        // +process_io+ but not yet moved to +total_cycles+) must be kept.
+        scheduler.iteration_cycles = full.iteration_cycles;
         scheduler
     }
 
@@ -248,6 +250,9 @@ where
         assert!(self.message_box.lock().expect("lock").is_empty());
         let mut vms = Vec::with_capacity(self.states.len());
         let instantiated_ids: Vec<_> = self.instantiated.keys().cloned().collect();
+        // Pending cycles that are not yet moved to +total_cycles+, they must be
+        // captured before +suspend_vm+ below charges for suspending VMs.
+        let iteration_cycles = self.iteration_cycles;
         for id in &instantiated_ids {
             self.suspend_vm(id)?;
         }
@@ -264,7 +269,7 @@ where
             // consensus. We are not charging cycles for suspending
             // a VM in the process of suspending the whole scheduler.
             total_cycles: self.total_cycles.load(Ordering::Acquire),
-            iteration_cycles: self.iteration_cycles,
+            iteration_cycles,
             next_vm_id: self.next_vm_id,
             next_fd_slot: self.next_fd_slot,
             vms,
@@ -421,9 +426,14 @@ where
     ) -> Result<(VmId, Cycle), Error> {
         let iterate_return = self.iterate_inner(pause.clone(), limit_cycles);
         self.consume_cycles(self.iteration_cycles)?;
-        let remaining_cycles = limit_cycles
-            .checked_sub(self.iteration_cycles)
-            .ok_or(Error::CyclesExceeded)?;
+        // NOTE: running out of the cycle limit must not be reported right here.
+        // A VM can legitimately overshoot +limit_cycles+ in the very iteration in
+        // which it yields on a syscall(syscalls charge cycles without checking),
+        // in which case its new state has already been recorded. Returning early
+        // would skip +process_io+ below, leaving e.g. a matched reader / writer
+        // pair both blocked in the suspended state, so a later resumed scheduler
+        // finds no runnable VM and reports a bogus deadlock.
+        let remaining_cycles = limit_cycles.checked_sub(self.iteration_cycles);
         // Clear iteration cycles intentionally after each run
         self.iteration_cycles = 0;
         // Process all pending VM reads & writes. Notice ideally, this invocation
@@ -452,6 +462,7 @@ where
         // we should be fine here.
         self.process_io()?;
         let id = iterate_return?;
+        let remaining_cycles = remaining_cycles.ok_or(Error::CyclesExceeded)?;
         Ok((id, remaining_cycles))
     }
 
